@@ -115,7 +115,63 @@ pub fn gen_queries(rng: &mut Rng, keys: &[Vec<u8>], n: usize, kind: u8) -> Vec<Q
     out
 }
 
+/// Prefixes of exactly 2, 4, 8 or 16 bytes that end in one to three 0xFF bytes, in a file that
+/// stores keys under the prefix, the prefix's true successor (the stem with its last byte
+/// incremented, shorter than the prefix) and that successor followed by zero bytes.
+fn gen_carry_prefix_case(rng: &mut Rng) -> Case {
+    let mut keys = std::collections::BTreeSet::new();
+    let mut queries = Vec::new();
+    for _ in 0..rng.urange(1, 3) {
+        let w = *rng.pick(&[2usize, 4, 8, 8, 8, 16]);
+        let m = rng.urange(1, 3.min(w - 1));
+        let mut stem: Vec<u8> = (0..w - m).map(|_| if rng.chance(1, 2) { *rng.pick(&ALPHA) } else { rng.below(255) as u8 }).collect();
+        let l = stem.len() - 1;
+        if stem[l] == 0xFF {
+            stem[l] = 0x61;
+        }
+        let mut prefix = stem.clone();
+        prefix.resize(w, 0xFF);
+        let mut succ = stem.clone();
+        succ[l] += 1;
+        for _ in 0..rng.urange(1, 4) {
+            let mut k = prefix.clone();
+            for _ in 0..rng.urange(0, 3) {
+                k.push(*rng.pick(&[0x00u8, 0x61, 0xFF]));
+            }
+            keys.insert(k);
+        }
+        if rng.chance(3, 4) {
+            keys.insert(succ.clone());
+        }
+        for z in 1..=rng.urange(0, m + 1) {
+            let mut k = succ.clone();
+            k.resize(succ.len() + z, 0);
+            keys.insert(k);
+        }
+        keys.insert(stem.clone());
+        queries.push(Query::Prefix { prefix: B(prefix.clone()), rev: true });
+        queries.push(Query::Prefix { prefix: B(prefix.clone()), rev: false });
+        queries.push(Query::Prefix { prefix: B(stem.clone()), rev: true });
+    }
+    for _ in 0..rng.urange(0, 20) {
+        let l = rng.urange(0, 9);
+        keys.insert(rng.bytes(l));
+    }
+    let mut ents: Vec<(B, B)> = Vec::new();
+    for (i, k) in keys.into_iter().enumerate() {
+        let pad = rng.urange(0, 6);
+        ents.push((B(k), B(gen::record(i as u32, pad))));
+    }
+    let mut knobs = gen::gen_knobs(rng, false);
+    knobs.ctor = 0;
+    let env = gen::gen_env(rng, true);
+    Case::Iter(IterCase { spec: FileSpec { knobs, entries: Entries::Literal(ents) }, env, queries, v1: false, interleave: false })
+}
+
 fn gen_iter_case(rng: &mut Rng, tier: Tier, kind: u8) -> Case {
+    if kind == 1 && rng.chance(1, 16) {
+        return gen_carry_prefix_case(rng);
+    }
     let mut spec = if rng.chance(1, 4) {
         gen::gen_layered_spec(rng, tier)
     } else {
